@@ -244,3 +244,21 @@ func VH_C18_uri(kind int) {
 	}
 	vreach("end")
 }
+
+// VH_C18_param: a query-string or form parameter that is not one of the typed ones
+// (fact, rule, pattern, query, event: JSON; limit: int) reaches the request map as
+// exactly the string the client sent, whatever characters it holds — the same argument a
+// JSON body or a direct System call would carry.
+func VH_C18_param() {
+	p := vsymStrN("param.name", 8)
+	v := vsymStrN("param.value", 6)
+	for _, typed := range []string{"fact", "rule", "pattern", "query", "event", "limit"} {
+		vassume(p != typed)
+	}
+	x, err := parseParameter(p, v)
+	vassert(err == nil, "string-parameter-accepted")
+	s, is := x.(string)
+	vassert(is, "string-parameter-stays-a-string")
+	vassert(s == v, "string-parameter-unchanged")
+	vreach("end")
+}
